@@ -784,6 +784,19 @@ FP_REF = {'Float16': (5, 11), 'Float32': (8, 24), 'Float64': (11, 53),
           'Float128': (15, 113)}
 
 
+def _subst_name(e, name, val):
+    import copy
+
+    class S(ast.NodeTransformer):
+
+        def visit_Name(self, n):
+            if n.id == name and isinstance(n.ctx, ast.Load):
+                return copy.deepcopy(val)
+            return n
+
+    return S().visit(copy.deepcopy(e))
+
+
 def rule_r4(chk, prog):
     chk.rule('C16.R4', 'default constants are of the requested sort (Bool, '
              'Int, Real, same bit-width, FP field widths 1/eb/sb-1; short '
@@ -801,7 +814,23 @@ def rule_r4(chk, prog):
                     st.test.comparators) == 1:
             k = unparse(st.test.comparators[0])
             if k in want:
-                got = [unparse(e) for e in st.body[0].value.elts]
+                val = st.body[0].value
+                if isinstance(val, ast.ListComp) and len(
+                        val.generators) == 1 and not val.generators[
+                            0].ifs and isinstance(
+                                val.generators[0].target, ast.Name) and \
+                        isinstance(val.generators[0].iter,
+                                   (ast.Tuple, ast.List)):
+                    # [Node(v) for v in ('false', 'true')]: written out
+                    g_ = val.generators[0]
+                    val = ast.List(elts=[
+                        _subst_name(val.elt, g_.target.id, x)
+                        for x in g_.iter.elts], ctx=ast.Load())
+                if not isinstance(val, (ast.List, ast.Tuple)):
+                    raise AnalysisError(
+                        f'C16.R4: {m.loc(st)}: the default constants of '
+                        f'{k} are not a list display')
+                got = [unparse(e) for e in val.elts]
                 chk.check('C16.R4', where, f'{k} -> {got}', got == want[k],
                           f'default constants of sort {k} are {got}',
                           loc=m.loc(st), nontrivial=True)
@@ -842,7 +871,8 @@ def rule_r4(chk, prog):
                   loc=m.loc(c), nontrivial=True)
     chk.floor('C16.R4', 'recursive default constants (containers)', nrec, 1)
     txt = unparse(f).replace(' ', '')
-    ok = f"[Node('_',c,{param}[2])forcin['bv0','bv1']]" in txt
+    ok = f"[Node('_',c,{param}[2])forcin['bv0','bv1']]" in txt or \
+        f"[Node('_','bv0',{param}[2]),Node('_','bv1',{param}[2])]" in txt
     chk.check('C16.R4', where, 'bit-vector constants keep the width of the '
               'sort', ok, 'bit-vector default constants do not reuse index 2 '
               'of the requested sort', loc=m.loc(f), nontrivial=True)
@@ -1303,6 +1333,19 @@ def rule_r11(chk, prog):
                       'leaf is inferred to be Int/Real', loc=m.loc(c),
                       nontrivial=True)
         if not pats and not lax:
+            # pure delegation to a sibling predicate of the same kind
+            rets = [x for x in ast.walk(f) if isinstance(x, ast.Return)]
+            sib = {'is_real_const': 'is_arith_const',
+                   'is_arith_const': 'is_real_const'}.get(pname)
+            if len(rets) == 1 and isinstance(
+                    rets[0].value, ast.Call) and call_name(
+                        rets[0].value) == sib and [
+                            unparse(a) for a in rets[0].value.args] == \
+                    params_of(f)[:1]:
+                n += 1
+                chk.instance('C16.R11', where, f'delegates to {sib}', True,
+                             'judged there')
+                continue
             raise AnalysisError(f'C16.R11: {where}: no regular expression '
                                 'and no conversion found that judges the '
                                 'leaf text')
